@@ -161,9 +161,9 @@ def run(ctx, eng):
               cm.attr_chain(e.container) == 'self._closed_streams']
         if pops and st:
             ok = True
-    closed_cond = any(
-        e.kind == 'assume' and cm.show0(e.cond).endswith('.closed')
-        for p in eng.I.run(f4) for e in p.events)
+    closed_cond = any(c.endswith('.closed')
+                      for p in eng.I.run(f4)
+                      for c in cm.filter_conditions(p))
     ctx.ob('ORD.cleanup', f4.qual, 'closed streams leave the live table',
            ok and closed_cond, 'streams that are closed are popped from '
            '`streams` and remembered in `_closed_streams`', node=f4.node)
